@@ -10,21 +10,37 @@ PROP = "C08"
 LEAN_FILES = ["QibProofs/Properties/C08.lean"]
 GEN = ()
 DRIVER = "drv_tnet"
-LEVEL_TEXT = ("Lean 4 theorems (invariant by induction over operation sequences, counting laws, value laws) over a hand-written "
-              "executable replica of SymbolicTensorNetwork surgery; the replica is tied to the code by exact comparison of both "
-              "dictionaries (insertion order included), is_consistent(), the counts and the dense integer value after every "
-              "operation of random histories.")
+LEVEL_TEXT = ("Lean 4 theorems, for ALL inputs, about the executable replica of SymbolicTensorNetwork surgery that the driver runs: "
+              "the replica's is_consistent is exact (C08_inv_iff_wf: it holds iff keys = ids, >= 2 references per bond, tensors and bonds "
+              "describe the same multiset of legs, one dimension per bond, virtual tensor present); rename_tensor / rename_bond / transpose / "
+              "merge preserve it (step_consistent, lifted to arbitrary histories over several networks by induction: ops_consistent); the "
+              "guards are exact (accepts_iff / rejects for the renames and transpose; merge returns or stops at its own assert, and refuses "
+              "out-of-range joins with ValueError); counts: unchanged by renames and transpose, after merge tensors add, open axes = a + b - "
+              "distinct joined axes of either side, bonds = a + b - rank of the join graph (fuseCount), exactly; values (the defining sum "
+              "`full`, any commutative semiring): renames leave every entry unchanged, transpose obeys the numpy.transpose law, merge = "
+              "generalised contraction over the joined axes with the remaining axes of the first operand followed by those of the second, "
+              "for arbitrary (axis-reusing) join lists, and depends on the second operand only through its value (merge_pure). "
+              "The replica is tied to the code by exact comparison of both dictionaries (insertion order included), is_consistent(), "
+              "the counts and the dense integer value after every operation of random histories.")
+TECHNIQUE = ("invariant bridging (executable check <-> declarative well-formedness over permutation-invariant leg multisets), "
+             "induction over operation histories and over the loops of merge, relabelling/delta-insertion lemmas for sums over bond "
+             "labellings; differential execution of operation histories against the real objects; direct oracle (is_consistent, counts "
+             "via union-find, np.einsum contraction, deep comparison of the second operand)")
 ASSUMPTIONS = ["the iteration order of the Python sets `keys() & keys()` inside merge is an input of the model (read off the same "
-               "objects immediately before the call); the theorems hold for every order",
-               "guards of the invariant: rename_tensor is not applied to the virtual tensor -1; joined open axes have equal "
-               "dimensions; joins leaving a bond with fewer than two references are refused by the code (assert)",
-               "the aliasing claim of merge (second operand untouched) is checked on the real objects by deep comparison; the "
-               "model is pure",
-               "after a failed TensorNetwork.merge that has already mutated the symbolic network (data clash, assert) the "
-               "network is not used any further"]
+               "objects immediately before the call; the driver checks it is a permutation of the shared ids); the theorems hold for "
+               "every such order",
+               "representation facts that is_consistent() does not test and the theorems therefore carry as `RepOK`: dictionary keys are "
+               "unique, len(shape) == len(bids) (SymbolicTensor constructor), bond.tids sorted (SymbolicBond constructor and every mutator; "
+               "the oracle checks sortedness after every operation)",
+               "guards of the invariant that the code does not enforce: rename_tensor is not applied to the virtual tensor -1 (merge does it "
+               "to its private copy); joined open axes have equal dimensions; a join leaving a bond with fewer than two references is "
+               "refused by the code's assert, which leaves the first operand half-updated: it is not used any further",
+               "the aliasing claim of merge (second operand untouched) is checked on the real objects by deep comparison; the model is pure",
+               "value theorems are over exact arithmetic (any commutative semiring); the correspondence uses integer data so that the "
+               "implementation's einsum is exact too; indices are within the shape"]
 RULE = ("histories of 1..10 rename/transpose/merge operations over 1..3 random consistent networks with colliding ids and "
-        "shared datarefs; a history is non-trivial if at least one operation succeeded and changed a dictionary; "
-        "distinct = distinct (networks, operation list)")
+        "shared datarefs (plus networks that is_consistent() must reject, whose initial state only is compared); a history is "
+        "non-trivial if at least one operation succeeded and changed a dictionary; distinct = distinct (networks, operation list)")
 LIMIT = 20000
 
 
@@ -522,7 +538,7 @@ def boundary_cases():
 def gen_cases(tier, rng):
     thorough = tier == "thorough"
     yield from boundary_cases()
-    for _ in range(9000 if thorough else 900):
+    for _ in range(45000 if thorough else 3000):
         yield gen_history(rng, thorough)
 
 
